@@ -172,8 +172,10 @@ package file
 //@   ensures [done] closed(stageDone)
 //@   onpanic [done-on-panic] closed(stageDone)
 //@
+//@ // C05 (no goroutine of the run remains): runStage returns only after its stage goroutine has finished: the deferred
+//@ // unsetEnvs runs on every way out, and [trigger-finished-first] demands the stage goroutine's done-channel closed there.
 //@ func runStage
-//@   props C15 C14
+//@   props C15 C14 C05
 //@   requires stageValueOK(stage) && wfManager(workers) && options.Concurrency >= 1 && output != nil
 //@   dyncall stageCancel : cancelFn
 //@   modifies env, envset, closedchans
